@@ -778,6 +778,10 @@ def run(pid, tier, replay=None):
             if st["found"] < 20:
                 return machinery_failure(pid, "assembly stage (%s) found only %d blocks" % (nm, st["found"]))
         chk.extra["assembly_stage"] = astats
+        # ---- the real constants: real period boundaries, targets recomputed by TLC with BigNat (TraceRetarget)
+        from checks import retarget
+        retarget.stage(chk, quick, rng, pid)
+        sk.apply_cfg(cfg_hdr)
         chk.sample({"source": "node's own block assembly on a random header tree", "steps": recs[0].abstract})
         chk.extra["rule"] = ("header-only behaviours with period 3 / timespan 4 crossing retarget boundaries on forks, every single "
                              "header rule broken; non-trivial = an accepted block sits on a retarget boundary; plus blocks assembled by the "
